@@ -659,7 +659,8 @@ func c01SizeClass(n int) string {
 	}
 }
 
-func c01RunCase(t *rapid.T, heavy bool) {
+func c01RunCase(t *rapid.T, fixedSize int) {
+	heavy := fixedSize > 0
 	env, err := c01GetEnv()
 	if err != nil {
 		t.Fatalf("VERIF-INFRA: environment: %v", err)
@@ -669,7 +670,7 @@ func c01RunCase(t *rapid.T, heavy bool) {
 	// ---- block
 	var n int
 	if heavy {
-		n = rapid.SampledFrom([]int{BlockSize - 1, BlockSize, BlockSize, BlockSize + 1}).Draw(t, "size")
+		n = fixedSize
 	} else {
 		n = rapid.SampledFrom([]int{0, 1, 2, 31, 32, 33, 4095, 4096, 4097, 65535, 65536, 65537,
 			1<<18 - 1, 1 << 18, 1<<18 + 1, 1<<20 - 1, 1 << 20, 1<<20 + 1, -1, -1, -1, -1, -2}).Draw(t, "size")
@@ -703,6 +704,10 @@ func c01RunCase(t *rapid.T, heavy bool) {
 			t.Fatalf("VERIF-INFRA: %v", err)
 		}
 		c.vols = append(c.vols, v)
+	}
+	if heavy {
+		// few boundary cases are run: each must be able to store and read back
+		c.vols[rapid.IntRange(0, nvol-1).Draw(t, "heavyWritable")].Mode = rapid.SampledFrom([]string{"rw", "rw-via-host"}).Draw(t, "heavyWritableMode")
 	}
 	nro := 0
 	for _, v := range c.vols {
@@ -742,7 +747,10 @@ func c01RunCase(t *rapid.T, heavy bool) {
 	sibHash := c.hash[:31] + string("0123456789abcdef"[(strings.IndexByte("0123456789abcdef", c.hash[31])+1)%16])
 	sibData := c01Expand(rapid.Uint64().Draw(t, "siblingSeed"), rapid.IntRange(0, 64).Draw(t, "siblingLen"))
 	decoyVol := rapid.IntRange(0, nvol-1).Draw(t, "decoyVol")
-	type other struct{ path string; data []byte }
+	type other struct {
+		path string
+		data []byte
+	}
 	others := []other{
 		{c01BlockPath(c.vols[decoyVol].root, decoyHash), decoyData},
 		{c01BlockPath(c.vols[nvol-1-decoyVol].root, sibHash), sibData},
@@ -825,7 +833,15 @@ func c01RunCase(t *rapid.T, heavy bool) {
 	} else {
 		nsteps := rapid.IntRange(3, 7).Draw(t, "nsteps")
 		if heavy {
-			nsteps = rapid.IntRange(2, 4).Draw(t, "nstepsHeavy")
+			nsteps = rapid.IntRange(1, 3).Draw(t, "nstepsHeavy")
+		}
+		if heavy {
+			// fixed core of every boundary case: read the generated layout,
+			// store the block, read it back both ways; generated steps follow
+			c.read("GET", "", false, "core")
+			c.put("put-correct", c.b, int64(n), rapid.Bool().Draw(t, "corePutWire"))
+			c.read("GET", fmt.Sprintf("+%d", n), rapid.Bool().Draw(t, "coreGetWire"), "core")
+			c.script = append(c.script, "core")
 		}
 		for s := 0; s < nsteps; s++ {
 			lbl := fmt.Sprintf("step%d", s)
@@ -954,15 +970,23 @@ func c01RunCase(t *rapid.T, heavy bool) {
 func TestVerifC01Script(t *testing.T) {
 	defer stats.Flush()
 	defer c01Cleanup()
-	rapid.Check(t, func(t *rapid.T) { c01RunCase(t, false) })
+	rapid.Check(t, func(t *rapid.T) { c01RunCase(t, 0) })
 }
 
 // TestVerifC01Boundary runs the same script around the 64 MiB block size
-// limit (thorough tier only; a handful of cases, one shard).
+// limit (thorough tier only; a handful of cases, one shard). One rapid case =
+// three recorded evaluations.
 func TestVerifC01Boundary(t *testing.T) {
 	defer stats.Flush()
 	defer c01Cleanup()
-	rapid.Check(t, func(t *rapid.T) { c01RunCase(t, true) })
+	rapid.Check(t, func(t *rapid.T) {
+		// every generated case visits all three boundary sizes (with
+		// independently drawn layouts and scripts): with a handful of cases a
+		// random choice of size left one of them out at some seeds
+		for _, n := range []int{BlockSize - 1, BlockSize, BlockSize + 1} {
+			c01RunCase(t, n)
+		}
+	})
 }
 
 func c01Cleanup() {
